@@ -1,13 +1,21 @@
 import Gallia.Lib.Proto
 import Gallia.Model.UdsReq
+import Gallia.Model.UdsClientApi
 /-
   line-protocol driver over the UDS request model (C01)
     mk <kind> <args…>   ->  `err` | `ok <pdu hex> <request>`
     dec <hex>           ->  `<request> | <hex of encode (decode b)>`
+    methods             ->  names of the methods `Call` has a constructor for (UDSClient service methods, then ECU helpers after `|`)
+    sig <method>        ->  one `name|default|type` per parameter (default: `req`, `bool:0`, `bytes:-`, `int:0`, `none`)
+    call <method> <args…> ->  `err` | `ok <pdu hex> <request>`   (`denote`; `_` = argument left out, `none` = Python None,
+                            `s:<int>` scalar for an int-or-sequence parameter, `h:<hex>` bytes for a bytes-or-int parameter)
+    ctor <method>       ->  `<class> <ctor parameter>=<method parameter> …` of the construction site of the method (`-` = none)
+    xmit <hex> <block_length> <max_block_length|_>  ->  `err` | the PDUs of ECU.transmit_data, comma separated
+    seq leave_session   ->  the PDUs of ECU.leave_session (all replies positive), comma separated
   request / args text: tokens separated by blanks; bytes as hex (`-` = empty); integer lists `a,b,c` (`-` = empty);
   groups `a:b:c,…`; absent optional = `none`; booleans 0/1.
 -/
-open Gallia Gallia.Proto Gallia.UdsReq
+open Gallia Gallia.Proto Gallia.UdsReq Gallia.UdsClientApi
 
 def b01 (b : Bool) : String := if b then "1" else "0"
 
@@ -76,6 +84,157 @@ def parseArgs : List String → Option Args
   | ["raw", r] => do pure (.raw (← parseHex r))
   | _ => none
 
+
+/-! ### the service-method layer -/
+
+def lastComponent (s : String) : String := (s.splitOn ".").getLastD s
+
+def methodName (m : Method) : String :=
+  let n := lastComponent (toString (repr m))
+  if n.startsWith "priv_" then (n.drop 4).toString else n
+
+def paramName (p : P) : String := lastComponent (toString (repr p))
+
+def showVal : Val → String
+  | .int i => s!"int:{i}"
+  | .bytes b => s!"bytes:{hexOrDash b}"
+  | .bool b => s!"bool:{b01 b}"
+  | .none => "none"
+  | .ints l => s!"ints:{showList (l.map toString)}"
+
+/-- generator hints: the documented type / range of every parameter, in signature order -/
+def tyOf : Method → List String
+  | .send_raw => ["b"]
+  | .diagnostic_session_control => ["i7", "bool"]
+  | .ecu_reset => ["i7", "bool"]
+  | .security_access_request_seed => ["i7odd", "b", "bool"]
+  | .security_access_send_key => ["i7even", "b1", "bool"]
+  | .communication_control => ["i7", "i8", "bool"]
+  | .tester_present => ["bool"]
+  | .control_dtc_setting => ["i7", "b", "bool"]
+  | .read_data_by_identifier => ["il16"]
+  | .read_memory_by_address => ["addr", "size", "alfid"]
+  | .write_data_by_identifier => ["i16", "b1"]
+  | .write_memory_by_address => ["addr", "b1", "osize", "alfid"]
+  | .clear_diagnostic_information => ["i24"]
+  | .read_dtc_information_report_number_of_dtc_by_status_mask => ["i8", "bool"]
+  | .read_dtc_information_report_dtc_by_status_mask => ["i8", "bool"]
+  | .read_dtc_information_report_mirror_memory_dtc_by_status_mask => ["i8", "bool"]
+  | .read_dtc_information_report_number_of_mirror_memory_dtc_by_status_mask => ["i8", "bool"]
+  | .read_dtc_information_report_number_of_emissions_related_obd_dtc_by_status_mask => ["i8", "bool"]
+  | .read_dtc_information_report_emissions_related_obd_dtc_by_status_mask => ["i8", "bool"]
+  | .report_dtc_extended_data_record_by_dtc_number => ["boi24", "i8", "bool"]
+  | .input_output_control_by_identifier => ["i16", "b1", "b"]
+  | .input_output_control_by_identifier_return_control_to_ecu => ["i16", "b"]
+  | .input_output_control_by_identifier_reset_to_default => ["i16", "b"]
+  | .input_output_control_by_identifier_freeze_current_state => ["i16", "b"]
+  | .input_output_control_by_identifier_short_term_adjustment => ["i16", "b1", "b"]
+  | .routine_control_start_routine => ["i16", "b", "bool"]
+  | .routine_control_stop_routine => ["i16", "b", "bool"]
+  | .routine_control_request_routine_results => ["i16", "b", "bool"]
+  | .request_download => ["addr", "size", "i4", "i4", "alfid"]
+  | .request_upload => ["addr", "size", "i4", "i4", "alfid"]
+  | .transfer_data => ["i8", "b"]
+  | .request_transfer_exit => ["b"]
+  | .define_by_identifier => ["i16", "il16", "il8", "il8", "bool"]
+  | .define_by_memory_address => ["i16", "iladdr", "ilsize", "alfid", "bool"]
+  | .clear_dynamically_defined_data_identifier => ["oi16", "bool"]
+  | .ping => []
+  | .read_session => []
+  | .set_session => ["i7", "bool"]
+  | .read_dtc => []
+  | .clear_dtc => []
+  | .read_vin => []
+  | .refresh_state => ["bool"]
+  | _ => []
+
+def pOptB (s : String) : Option (Option Bytes) := if s == "_" then some none else (parseHex s).map some
+def pOptBool (s : String) : Option (Option Bool) := if s == "_" then some none else (pBool s).map some
+def pOmitInt (s : String) : Option (Option Int) := if s == "_" then some none else (s.toInt?).map some
+def pOOInt (s : String) : Option (Option (Option Int)) := if s == "_" then some none else (pOptInt s).map some
+def pIntOrList (s : String) : Option IntOrList :=
+  if s.startsWith "s:" then ((s.drop 2).toString.toInt?).map .one else (pInts s).map .many
+def pBytesOrInt (s : String) : Option BytesOrInt :=
+  if s.startsWith "h:" then (parseHex (s.drop 2).toString).map .bytes else (s.toInt?).map .int
+
+def parseCall : List String → Option Call
+  | ["send_raw", a0] => do pure (.send_raw (← parseHex a0))
+  | ["diagnostic_session_control", a0, a1] => do pure (.diagnostic_session_control (← pInt a0) (← pOptBool a1))
+  | ["ecu_reset", a0, a1] => do pure (.ecu_reset (← pInt a0) (← pOptBool a1))
+  | ["security_access_request_seed", a0, a1, a2] => do pure (.security_access_request_seed (← pInt a0) (← pOptB a1) (← pOptBool a2))
+  | ["security_access_send_key", a0, a1, a2] => do pure (.security_access_send_key (← pInt a0) (← parseHex a1) (← pOptBool a2))
+  | ["communication_control", a0, a1, a2] => do pure (.communication_control (← pInt a0) (← pInt a1) (← pOptBool a2))
+  | ["tester_present", a0] => do pure (.tester_present (← pOptBool a0))
+  | ["control_dtc_setting", a0, a1, a2] => do pure (.control_dtc_setting (← pInt a0) (← pOptB a1) (← pOptBool a2))
+  | ["read_data_by_identifier", a0] => do pure (.read_data_by_identifier (← pIntOrList a0))
+  | ["read_memory_by_address", a0, a1, a2] => do pure (.read_memory_by_address (← pInt a0) (← pInt a1) (← pOOInt a2))
+  | ["write_data_by_identifier", a0, a1] => do pure (.write_data_by_identifier (← pInt a0) (← parseHex a1))
+  | ["write_memory_by_address", a0, a1, a2, a3] => do pure (.write_memory_by_address (← pInt a0) (← parseHex a1) (← pOOInt a2) (← pOOInt a3))
+  | ["clear_diagnostic_information", a0] => do pure (.clear_diagnostic_information (← pInt a0))
+  | ["read_dtc_information_report_number_of_dtc_by_status_mask", a0, a1] => do pure (.read_dtc_information_report_number_of_dtc_by_status_mask (← pInt a0) (← pOptBool a1))
+  | ["read_dtc_information_report_dtc_by_status_mask", a0, a1] => do pure (.read_dtc_information_report_dtc_by_status_mask (← pInt a0) (← pOptBool a1))
+  | ["read_dtc_information_report_mirror_memory_dtc_by_status_mask", a0, a1] => do pure (.read_dtc_information_report_mirror_memory_dtc_by_status_mask (← pInt a0) (← pOptBool a1))
+  | ["read_dtc_information_report_number_of_mirror_memory_dtc_by_status_mask", a0, a1] => do pure (.read_dtc_information_report_number_of_mirror_memory_dtc_by_status_mask (← pInt a0) (← pOptBool a1))
+  | ["read_dtc_information_report_number_of_emissions_related_obd_dtc_by_status_mask", a0, a1] => do pure (.read_dtc_information_report_number_of_emissions_related_obd_dtc_by_status_mask (← pInt a0) (← pOptBool a1))
+  | ["read_dtc_information_report_emissions_related_obd_dtc_by_status_mask", a0, a1] => do pure (.read_dtc_information_report_emissions_related_obd_dtc_by_status_mask (← pInt a0) (← pOptBool a1))
+  | ["report_dtc_extended_data_record_by_dtc_number", a0, a1, a2] => do pure (.report_dtc_extended_data_record_by_dtc_number (← pBytesOrInt a0) (← pInt a1) (← pOptBool a2))
+  | ["input_output_control_by_identifier", a0, a1, a2] => do pure (.input_output_control_by_identifier (← pInt a0) (← parseHex a1) (← pOptB a2))
+  | ["input_output_control_by_identifier_return_control_to_ecu", a0, a1] => do pure (.input_output_control_by_identifier_return_control_to_ecu (← pInt a0) (← pOptB a1))
+  | ["input_output_control_by_identifier_reset_to_default", a0, a1] => do pure (.input_output_control_by_identifier_reset_to_default (← pInt a0) (← pOptB a1))
+  | ["input_output_control_by_identifier_freeze_current_state", a0, a1] => do pure (.input_output_control_by_identifier_freeze_current_state (← pInt a0) (← pOptB a1))
+  | ["input_output_control_by_identifier_short_term_adjustment", a0, a1, a2] => do pure (.input_output_control_by_identifier_short_term_adjustment (← pInt a0) (← parseHex a1) (← pOptB a2))
+  | ["routine_control_start_routine", a0, a1, a2] => do pure (.routine_control_start_routine (← pInt a0) (← pOptB a1) (← pOptBool a2))
+  | ["routine_control_stop_routine", a0, a1, a2] => do pure (.routine_control_stop_routine (← pInt a0) (← pOptB a1) (← pOptBool a2))
+  | ["routine_control_request_routine_results", a0, a1, a2] => do pure (.routine_control_request_routine_results (← pInt a0) (← pOptB a1) (← pOptBool a2))
+  | ["request_download", a0, a1, a2, a3, a4] => do pure (.request_download (← pInt a0) (← pInt a1) (← pOmitInt a2) (← pOmitInt a3) (← pOOInt a4))
+  | ["request_upload", a0, a1, a2, a3, a4] => do pure (.request_upload (← pInt a0) (← pInt a1) (← pOmitInt a2) (← pOmitInt a3) (← pOOInt a4))
+  | ["transfer_data", a0, a1] => do pure (.transfer_data (← pInt a0) (← pOptB a1))
+  | ["request_transfer_exit", a0] => do pure (.request_transfer_exit (← pOptB a0))
+  | ["define_by_identifier", a0, a1, a2, a3, a4] => do pure (.define_by_identifier (← pInt a0) (← pIntOrList a1) (← pIntOrList a2) (← pIntOrList a3) (← pOptBool a4))
+  | ["define_by_memory_address", a0, a1, a2, a3, a4] => do pure (.define_by_memory_address (← pInt a0) (← pIntOrList a1) (← pIntOrList a2) (← pOOInt a3) (← pOptBool a4))
+  | ["clear_dynamically_defined_data_identifier", a0, a1] => do pure (.clear_dynamically_defined_data_identifier (← pOptInt a0) (← pOptBool a1))
+  | ["ping"] => some .ping
+  | ["read_session"] => some .read_session
+  | ["set_session", a0, a1] => do pure (.set_session (← pInt a0) (← pOptBool a1))
+  | ["read_dtc"] => some .read_dtc
+  | ["clear_dtc"] => some .clear_dtc
+  | ["read_vin"] => some .read_vin
+  | ["refresh_state", a0] => do pure (.refresh_state (← pOptBool a0))
+  | _ => none
+
+def clientMethods : List Method := wireTable.map (·.1)
+def ecuMethods : List Method := [.ping, .read_session, .set_session, .read_dtc, .clear_dtc, .read_vin, .refresh_state]
+
+def showSig (m : Method) : String :=
+  match sigs.find? (fun s => s.method = m) with
+  | none => "unknown-method"
+  | some sg =>
+    let tys := tyOf m
+    let items := (List.range sg.params.length).map fun i =>
+      match sg.params[i]? with
+      | some p => s!"{paramName p.name}|{match p.dflt with | none => "req" | some v => showVal v}|{tys.getD i "?"}"
+      | none => "?"
+    if items.isEmpty then "-" else " ".intercalate items
+
+def clsName (c : Cls) : String := lastComponent (toString (repr c))
+
+def showCtor (m : Method) : String :=
+  match ctorSites.find? (fun s => s.fn = m) with
+  | none => "-"
+  | some site =>
+    let items := site.args.map fun a =>
+      s!"{paramName a.1}={match a.2 with | .param p => paramName p | .const v => "const:" ++ showVal v | .expr _ => "expr"}"
+    " ".intercalate (clsName site.cls :: items)
+
+def showPdus (rs : List (Except Refusal Bytes)) : String :=
+  if rs.any (fun r => match r with | .error _ => true | .ok _ => false) then "err"
+  else ",".intercalate (rs.map fun r => match r with | .ok b => hexOrDash b | .error _ => "err")
+
+def allMethods : List Method := clientMethods ++ ecuMethods ++ [.transmit_data, .leave_session, .check_and_set_session,
+  .priv_tester_present, .priv_wait_for_ecu_endless_loop, .priv_tester_present_worker]
+
+def findMethod (name : String) : Option Method := allMethods.find? (fun m => methodName m == name)
+
 def step (line : String) : String :=
   match words line with
   | "mk" :: rest =>
@@ -89,6 +248,30 @@ def step (line : String) : String :=
     match parseHex h with
     | some b => let r := decode b; s!"{showReq r} | {hexOrDash (encode r)}"
     | none => "bad-op"
+  | ["methods"] => " ".intercalate (clientMethods.map methodName) ++ " | " ++ " ".intercalate (ecuMethods.map methodName)
+  | ["sig", m] =>
+    match findMethod m with
+    | some m => showSig m
+    | none => "unknown-method"
+  | ["ctor", m] =>
+    match findMethod m with
+    | some m => showCtor m
+    | none => "unknown-method"
+  | "call" :: rest =>
+    match parseCall rest with
+    | some c =>
+      match denote c with
+      | .ok r => s!"ok {hexOrDash (encode r)} {showReq r}"
+      | .error _ => "err"
+    | none => "bad-op"
+  | ["xmit", d, bl, mbl] =>
+    match parseHex d, bl.toInt?, pOmitInt mbl with
+    | some d, some bl, some mbl =>
+      match transmitCalls d bl mbl with
+      | .ok cs => showPdus (cs.map bytesOf)
+      | .error _ => "err"
+    | _, _, _ => "bad-op"
+  | ["seq", "leave_session"] => showPdus (leaveSessionCalls.map bytesOf)
   | _ => "bad-op"
 
 def main : IO Unit := loopLines step
